@@ -271,7 +271,14 @@ def run(pid, tier, replay=None):
                 chk.case((t, b + tail), nontrivial=True)
         if len(b) > 3000 and quick:
             continue
-        for name, mb in wiregen.mutations(t, b, rng, budget=budget):
+        try:
+            muts = wiregen.mutations(t, b, rng, budget=budget)
+        except (KeyError, IndexError, ValueError):
+            # the tree's own encoding of this value does not follow the format description, so there are no fields to alter; the "value" event
+            # above carries the bytes and TLC judges them (same_enc / round trip)
+            chk.notes.append("the encoder's output for a %s could not be laid out by the format description" % t)
+            muts = []
+        for name, mb in muts:
             e = event(t, mb, "bytes", CLS, name=name)
             if e:
                 events.append(e)
